@@ -5,7 +5,8 @@ Inductive lcase :=
 | CRound (v : json) (obs : option json) (panicked : bool)      (* RunLuaScript("return obj") on {"v": v}, then Encode *)
 | CTable (t : lval) (obs : option json) (panicked : bool)      (* Encode of a table built through RawSet *)
 | CSurface (names : list string) (probes : list (string * bool))
-| CHostile (name : string) (millis : Z) (outcome : string).
+| CHostile (name : string) (millis : Z) (outcome : string)
+| CFresh (before after : string) (leak panicked : bool).       (* a well-behaved script's result before / after another rollout's tampering script *)
 Definition case := lcase.
 
 Fixpoint json_eqb (a b : json) : bool :=
@@ -52,6 +53,11 @@ Definition os_probe (p : string) : bool := negb (String.eqb p "load runs a strin
 
 Definition slow_limit_ms : Z := 3000.            (* the VM deadline is 1 s; 3 s allows for a loaded machine *)
 
+Definition non_nil (x : lval) : bool := match x with LNil => false | _ => true end.
+Definition jwidth (j : json) : Z := match j with JArr l => zlen l | JObj m => zlen m | _ => 0 end.
+Definition live (t : lval) : Z :=
+  match t with LTab arr hash => count non_nil arr + count (fun kv => non_nil (snd kv)) hash | _ => 0 end.
+
 Definition judge (c : case) : list verdict :=
   match c with
   | CRound v obs p =>
@@ -61,7 +67,11 @@ Definition judge (c : case) : list verdict :=
                                     (if lossless (JObj [("v", v)]) then opt_eqb json_eqb obs (Some (JObj [("v", v)])) else true));
       clause "C16_never_panics" (negb p) ]
   | CTable t obs p =>
-    [ if opt_eqb json_eqb (encode t) obs && negb p then VOk else VMismatch; clause "C16_never_panics" (negb p) ]
+    [ if opt_eqb json_eqb (encode t) obs && negb p then VOk else VMismatch; clause "C16_never_panics" (negb p);
+      (* whenever Encode succeeds nothing was dropped or padded: as many elements / members as the table has live entries *)
+      clause "C16_encoding_loses_no_entry" (match obs with Some j => jwidth j =? live t | None => true end) ]
+  | CFresh before after leak p =>
+    [ clause "C16_fresh_state_per_call" (String.eqb before after && negb leak); clause "C16_never_panics" (negb p) ]
   | CSurface names probes =>
     [ if list_eqb String.eqb names surface then VOk else VMismatch;
       clause "C16_no_os_access" (surface_safe names && forallb (fun p => if os_probe (fst p) then negb (snd p) else true) probes) ]
@@ -77,4 +87,5 @@ Definition tag (c : case) : string :=
   | CTable t obs _ => match obs with Some _ => "table/encodable" | None => "table/refused" end
   | CSurface _ _ => "surface"
   | CHostile _ _ o => ("hostile/" ++ o)%string
+  | CFresh _ _ _ _ => "fresh-state"
   end.
